@@ -414,3 +414,13 @@ def m_set_subset(c):
     b.force(c.st)
     cs = [z3.Or([c.st.val_eq(x, y) for y in b.keys]) if b.keys else z3.BoolVal(False) for x in a.keys]
     return z3.simplify(z3.And(cs)) if cs else z3.BoolVal(True)
+
+
+@pattern(r'^<(HashMap|BTreeMap|HashSet|BTreeSet) as Clone>::clone$')
+def m_map_clone(c):
+    """element-wise clone of a map / set (keys and values cloned with the element rules)"""
+    from .models_iter import clone_value
+    m = as_map(c.st, c.args[0])
+    m.force(c.st)
+    vals = [UNIT if m.is_set else clone_value(c.st, m.load(i, None, c.st)) for i in range(len(m.keys))]
+    return Map(m.kty, m.vty, [clone_value(c.st, k) for k in m.keys], vals, is_set=m.is_set, ordered=m.ordered)
